@@ -5,6 +5,9 @@ from parmap_common import MapIterSpec, MapStreamSpec
 PROP_FILES = ["C14"]
 
 
+SPECS = {"mapiter": (MapIterSpec(), "harness_parmap", "runner-parmap"), "mapstream": (MapStreamSpec(), "harness_parmap", "runner-parmap")}
+
+
 def run(ctx):
     proofs_ok = ctx.check_proofs(PROP_FILES, extra_targets=["theories/Conc/ParMap.vo"])
     ok, out, exe = vlib.build_runner(module="harness_parmap", exe_name="runner-parmap")
